@@ -258,7 +258,9 @@ class Edits:
     def replace(self, i, j, pieces):
         for a in list(self.repl):
             b = self.repl[a][0]
-            if not (j <= a or b <= i):
+            if i <= a and b <= j:
+                del self.repl[a]      # swallowed by the larger rewrite
+            elif not (j <= a or b <= i):
                 raise ExtractError("overlapping rewrite")
         self.repl[i] = (j, pieces)
 
@@ -297,6 +299,10 @@ RULES = {
     "R1b": [("Box::new(", "VWriter::from_write(")],
     # R2: auto traits inside dyn types carry no methods
     "R2": [("+Send+Sync", ""), ("+Send", ""), ("+Sync", "")],
+    # R3: closure parameters that are patterns get a name
+    "R3": [("|_|", "|_v|"), ("|()|", "|_u: ()|")],
+    # R6: consts inside verus! need the (implied) 'static lifetime spelled out
+    "R6": [(":&str=", ":&'static str=")],
     # R4: fn-pointer alias becomes an opaque shim
     "R4": [("FormatFunction", "VFormatFn")],
 }
@@ -432,6 +438,150 @@ def find_closures(sf, a, b):
     return res
 
 
+# ---- #[cfg(..)] evaluation ---------------------------------------------------------------------
+# The verus! macro generates helpers for every *syntactic* enum variant, so attributes such as
+# #[cfg(feature = "compress")] on variants, fields, match arms and statements cannot be left to rustc:
+# they are evaluated here under the unit's feature set; a false cfg drops the element it is attached
+# to, a true cfg drops only the attribute. (rule CFG, counted per item)
+CFG_ATOMS_TRUE = {"unix", "debug_assertions"}
+CFG_KV_TRUE = {("target_family", "unix"), ("target_os", "linux")}
+
+
+def eval_cfg(toks, features):
+    """toks: significant tokens of the predicate"""
+    pos = [0]
+
+    def peek():
+        return toks[pos[0]].text if pos[0] < len(toks) else None
+
+    def nxt():
+        t = toks[pos[0]]
+        pos[0] += 1
+        return t
+
+    def pred():
+        t = nxt()
+        name = t.text
+        if peek() == "(":
+            nxt()
+            args = []
+            while peek() != ")":
+                args.append(pred())
+                if peek() == ",":
+                    nxt()
+            nxt()
+            if name == "not":
+                return not args[0]
+            if name == "all":
+                return all(args)
+            if name == "any":
+                return any(args)
+            raise ExtractError("unknown cfg operator %s" % name)
+        if peek() == "=":
+            nxt()
+            v = nxt().text.strip('"')
+            if name == "feature":
+                return v in features
+            return (name, v) in CFG_KV_TRUE
+        return name in CFG_ATOMS_TRUE
+
+    return pred()
+
+
+def cfg_edits(sf, a, b, features, ed):
+    """returns (n_true, n_false)"""
+    toks = sf.toks
+    n_true = n_false = 0
+    k = a
+    while k < b:
+        t = toks[k]
+        if t.text == "#":
+            n = sf.next_sig(k + 1)
+            if toks[n].text == "[":
+                close = sf.br[n]
+                inner = [x for x in toks[n + 1:close] if x.kind not in TRIVIA]
+                if inner and inner[0].text == "cfg" and len(inner) > 1 and inner[1].text == "(":
+                    val = eval_cfg(inner[2:-1], features)
+                    if val:
+                        n_true += 1
+                        ed.replace(k, close + 1, [Piece("")])
+                        k = close + 1
+                        continue
+                    # drop the element: further attributes, then up to `,`/`;`/block end
+                    n_false += 1
+                    j = sf.next_sig(close + 1)
+                    while toks[j].text == "#":
+                        m = sf.next_sig(j + 1)
+                        j = sf.next_sig(sf.br[m] + 1)
+                    end = None
+                    elem_first = j
+                    seen_arrow = False
+                    is_item = toks[j].kind == "ident" and toks[j].text in ITEM_KW + MODIFIERS
+                    while j < b:
+                        tt = toks[j]
+                        if tt.kind in TRIVIA:
+                            j += 1
+                            continue
+                        if tt.text in ("(", "["):
+                            j = sf.br[j] + 1
+                            continue
+                        if tt.text == "=" and toks[j + 1].text == ">":
+                            seen_arrow = True
+                            j += 2
+                            continue
+                        if tt.text == "{":
+                            close2 = sf.br[j]
+                            nx = sf.next_sig(close2 + 1)
+                            nxt_text = toks[nx].text if nx < len(toks) else ""
+                            if nxt_text in (",", ";"):
+                                end = nx + 1
+                                break
+                            if j == elem_first or seen_arrow or is_item:
+                                end = close2 + 1
+                                break
+                            j = close2 + 1
+                            continue
+                        if tt.text in (",", ";"):
+                            end = j + 1
+                            break
+                        if tt.text in (")", "]", "}"):
+                            end = j
+                            break
+                        j += 1
+                    if end is None:
+                        end = b
+                    # leading doc comments / attributes of the same element go too
+                    st = k
+                    while True:
+                        q = st - 1
+                        while q >= a and toks[q].kind == "ws":
+                            q -= 1
+                        if q < a:
+                            break
+                        if toks[q].kind == "lcomment" and toks[q].text.startswith("///"):
+                            st = q
+                            continue
+                        if toks[q].text == "]" and q in sf.br:
+                            o = sf.br[q]
+                            h = o - 1
+                            while h >= a and toks[h].kind in TRIVIA:
+                                h -= 1
+                            if h >= a and toks[h].text == "#":
+                                st = h
+                                continue
+                        break
+                    ed.replace(st, end, [Piece("")])
+                    k = end
+                    continue
+                k = close + 1
+                continue
+        k += 1
+    return n_true, n_false
+
+
+FEATURES = set()
+
+
 class Clause:
     def __init__(self, kind, label, text, props):
         self.kind, self.label, self.text, self.props = kind, label, text, props
@@ -469,6 +619,12 @@ def render_item(d, it, repo_root, registry):
     a, b = it.start, it.end
     ind = indent_of(sf, it.first)
     rule_hits = {}
+    cfg_hi = b
+    if it.body_open is not None and ((d.mode == "sig" and it.kind == "fn") or d.mode == "opaque"):
+        cfg_hi = it.body_open
+    elif d.mode == "opaque":
+        cfg_hi = it.kw
+    cfg_t, cfg_f = cfg_edits(sf, a, cfg_hi, FEATURES, ed)
     for rule, _n in d.rules:
         rule_hits[rule] = apply_rule(sf, a, b, rule, ed)
     # attributes to drop
@@ -587,7 +743,7 @@ def render_item(d, it, repo_root, registry):
     pieces = render_tokens(sf, a, b, ed)
     registry.append({
         "mode": d.mode, "file": os.path.relpath(sf.path, repo_root), "item": d.query, "name": fname,
-        "line": toks[it.first].line, "rules": dict(rule_hits),
+        "line": toks[it.first].line, "rules": dict(rule_hits), "cfg_true": cfg_t, "cfg_false": cfg_f,
         "clauses": [(c.kind, c.label, c.props) for c in d.clauses]
         + [("inv", c.label, c.props) for s in d.loops.values() for c in s.get("inv", [])]
         + [(k, c.label, c.props) for s in d.closures.values() for k in ("req", "ens") for c in s.get(k, [])],
@@ -597,6 +753,7 @@ def render_item(d, it, repo_root, registry):
     # vacuity twin
     if d.canary and it.kind == "fn" and d.mode == "fn":
         ed2 = Edits()
+        cfg_edits(sf, a, it.body_open, FEATURES, ed2)
         for rule, _n in d.rules:
             apply_rule(sf, a, b, rule, ed2)
         n = sf.next_sig(it.kw + 1)
@@ -612,8 +769,10 @@ def render_item(d, it, repo_root, registry):
         ed2.replace(it.body_open, it.body_close + 1,
                     [Piece("{ assert(false); vstd::pervasive::unreached() }", label="canary:" + fname)])
         # drop attributes of the original (inline etc. are harmless, keep)
+        out += [Piece("", label="M:cbegin:%d" % (len(registry) - 1))]
         out += [Piece(ind + "#[allow(dead_code)]\n" + ind, label="canary")]
         out += render_tokens(sf, it.first, b, ed2) + [Piece("\n", label="nl")]
+        out += [Piece("", label="M:cend:%d" % (len(registry) - 1))]
     return out
 
 
